@@ -28,7 +28,7 @@ Inductive sop :=
 | SIntIsZero | SIntIsNeg | SIntIsPos | SIntIsEven | SIntIsOdd
 | SIntEQ | SIntNE | SIntLT | SIntLE
 | SIntNegate | SIntPrev | SIntNext | SIntPlus | SIntMinus | SIntTimes | SIntTimesPlus
-| SIntMod | SIntQuo | SIntRem | SIntPlusMod | SIntMinusMod | SIntTimesMod
+| SIntMod | SIntQuo | SIntRem | SIntPlusMod | SIntMinusMod | SIntTimesMod | SIntTimesModInv
 | SIntShiftUp | SIntShiftDn | SIntBit | SIntNot | SIntAnd | SIntOr | SIntXOr
 | ByteToSInt | SIntToByte | HIntToSInt | SIntToHInt
 | RoundZero | RoundNearest | RoundUp | RoundDown | RoundDontCare.
@@ -52,6 +52,7 @@ Definition sop_table : list (string * sop) := [
   ("SIntTimesPlus", SIntTimesPlus);
   ("SIntMod", SIntMod); ("SIntQuo", SIntQuo); ("SIntRem", SIntRem);
   ("SIntPlusMod", SIntPlusMod); ("SIntMinusMod", SIntMinusMod); ("SIntTimesMod", SIntTimesMod);
+  ("SIntTimesModInv", SIntTimesModInv);
   ("SIntShiftUp", SIntShiftUp); ("SIntShiftDn", SIntShiftDn); ("SIntBit", SIntBit);
   ("SIntNot", SIntNot); ("SIntAnd", SIntAnd); ("SIntOr", SIntOr); ("SIntXOr", SIntXOr);
   ("ByteToSInt", ByteToSInt); ("SIntToByte", SIntToByte);
@@ -90,6 +91,7 @@ Definition sop_sig (o : sop) : list fty * fty :=
   | SIntPlus | SIntMinus | SIntTimes | SIntMod | SIntQuo | SIntRem
   | SIntShiftUp | SIntShiftDn | SIntAnd | SIntOr | SIntXOr => ([FSInt; FSInt], FSInt)
   | SIntTimesPlus | SIntPlusMod | SIntMinusMod | SIntTimesMod => ([FSInt; FSInt; FSInt], FSInt)
+  | SIntTimesModInv => ([FSInt; FSInt; FSInt; FDFlo], FSInt)
   | SIntBit => ([FSInt; FSInt], FBool)
   | ByteToSInt => ([FByte], FSInt)
   | SIntToByte => ([FSInt], FByte)
@@ -108,6 +110,7 @@ Definition in_ty (t : fty) (z : Z) : Prop :=
   | FChar | FByte => 0 <= z < 256
   | FHInt => -32768 <= z < 32768
   | FSInt => -9223372036854775808 <= z < 9223372036854775808
+  | FDFlo => True     (* a float operand is an opaque datum here: no specified result may depend on it *)
   | _ => False
   end.
 
@@ -117,6 +120,7 @@ Definition in_ty_b (t : fty) (z : Z) : bool :=
   | FChar | FByte => (0 <=? z) && (z <? 256)
   | FHInt => (-32768 <=? z) && (z <? 32768)
   | FSInt => (-9223372036854775808 <=? z) && (z <? 9223372036854775808)
+  | FDFlo => true
   | _ => false
   end.
 
@@ -168,6 +172,7 @@ Definition spec (o : sop) (l : list Z) : Z :=
   | SIntPlusMod => Z.rem (red (a + b)) c
   | SIntMinusMod => Z.rem (red (a - b)) c
   | SIntTimesMod => Z.rem (red (a * b)) c
+  | SIntTimesModInv => Z.rem (red (a * b)) c    (* the fourth operand (an approximation of 1/c) does not matter *)
   | SIntShiftUp => red (Z.shiftl a b)
   | SIntShiftDn => Z.shiftr a b
   | SIntBit => Z.b2z (Z.testbit a b)
@@ -188,7 +193,7 @@ Definition in_dom (o : sop) (l : list Z) : bool :=
   | SIntMod | SIntQuo | SIntRem => div_ok a b
   | SIntPlusMod => div_ok (red (a + b)) c
   | SIntMinusMod => div_ok (red (a - b)) c
-  | SIntTimesMod => div_ok (red (a * b)) c
+  | SIntTimesMod | SIntTimesModInv => div_ok (red (a * b)) c
   | SIntShiftUp | SIntShiftDn | SIntBit => (0 <=? b) && (b <? 64)
   | _ => true
   end.
@@ -216,17 +221,25 @@ Definition sameop_names : list string := [
   "BIntEQ"; "BIntNE"; "BIntLT"; "BIntLE"; "BIntNegate"; "BIntPrev"; "BIntNext";
   "BIntPlus"; "BIntMinus"; "BIntTimes"; "BIntTimesPlus"; "BIntMod"; "BIntQuo"; "BIntRem";
   "BIntGcd"; "BIntSIPower"; "BIntBIPower"; "BIntPowerMod"; "BIntLength";
-  "BIntShiftRem";
+  "BIntBit";
   "SIntToBInt"; "BIntToSInt"; "BIntToSFlo"; "BIntToDFlo";
   (* integer operations implemented once, in the runtime, and called by both run times *)
   "SIntGcd"; "SIntLength"; "SIntHashCombine";
   (* platform constants <limits.h>, same expression in both run times *)
   "CharMin"; "CharMax";
   (* pointers *)
-  "PtrNil"; "PtrEQ"; "PtrNE"; "PtrMagicEQ"; "PtrToSInt"; "SIntToPtr";
+  "PtrIsNil"; "PtrEQ"; "PtrNE"; "PtrMagicEQ"; "PtrToSInt"; "SIntToPtr";
   (* literal conversions and formatting *)
-  "ArrToSInt"; "ArrToBInt"; "FormatSFlo"; "FormatDFlo"; "FormatSInt"; "FormatBInt";
-  "PlatformOS"
+  "ArrToSInt"; "ArrToBInt"; "ArrToSFlo"; "ArrToDFlo"; "FormatSFlo"; "FormatDFlo"; "FormatSInt"; "FormatBInt";
+  "PlatformOS";
+  (* directed rounding: runtime functions fi[SD]FloR* (results are the neighbouring floats) *)
+  "SFloRPlus"; "SFloRMinus"; "SFloRTimes"; "SFloRTimesPlus"; "SFloRDivide";
+  "DFloRPlus"; "DFloRMinus"; "DFloRTimes"; "DFloRTimesPlus"; "DFloRDivide";
+  (* raw-record type tags and fixed sizes: the same constant *)
+  "TypeInt8"; "TypeInt16"; "TypeInt32"; "TypeInt64"; "TypeInt128"; "TypeNil"; "TypeChar"; "TypeBool";
+  "TypeByte"; "TypeHInt"; "TypeSInt"; "TypeBInt"; "TypeSFlo"; "TypeDFlo"; "TypeWord"; "TypeClos";
+  "TypePtr"; "TypeRec"; "TypeArr"; "TypeTR";
+  "SizeOfInt8"; "SizeOfInt16"; "SizeOfInt32"; "SizeOfInt64"; "SizeOfInt128"
 ].
 
 Definition excluded : list (string * string) := [
@@ -235,35 +248,22 @@ Definition excluded : list (string * string) := [
   ("SFloIsZero", "interpreter tests `x ? F : T`, folder and C `x == 0.0`: same predicate on IEEE values, different syntax; 3-way run only");
   ("SFloIsNeg", "compares with integer 0 in the interpreter and 0.0 elsewhere; 3-way run only");
   ("SFloIsPos", "as SFloIsNeg"); ("DFloIsZero", "as SFloIsZero"); ("DFloIsNeg", "as SFloIsNeg"); ("DFloIsPos", "as SFloIsNeg");
-  ("SFloRPlus", "directed rounding: runtime functions with FPU state"); ("SFloRMinus", "directed rounding");
-  ("SFloRTimes", "directed rounding"); ("SFloRTimesPlus", "directed rounding"); ("SFloRDivide", "directed rounding");
-  ("DFloRPlus", "directed rounding"); ("DFloRMinus", "directed rounding"); ("DFloRTimes", "directed rounding");
-  ("DFloRTimesPlus", "directed rounding"); ("DFloRDivide", "directed rounding");
   ("SFloDissemble", "several results through pointers"); ("SFloAssemble", "bit-level float construction (C19)");
   ("DFloDissemble", "several results through pointers"); ("DFloAssemble", "bit-level float construction (C19)");
   ("SIntDivide", "two results through pointers (quotient and remainder are covered by SIntQuo/SIntRem)");
-  ("SIntTimesModInv", "no case in the interpreter (compiler bug abort) and a stub returning 0 in the C runtime: reported, see evidence");
   ("WordTimesDouble", "several results through pointers"); ("WordDivideDouble", "several results through pointers");
   ("WordPlusStep", "several results through pointers"); ("WordTimesStep", "several results through pointers");
   ("BIntIsEven", "two C renderings (fiBIntMod-based and fiBIntBit-based); big integers are C11's"); ("BIntIsOdd", "as BIntIsEven");
   ("BIntDivide", "two results through pointers");
+  ("BIntShiftRem", "interpreter narrows the count to int first; otherwise the same bintShiftRem call");
+  ("PtrNil", "null pointer written 0 / (FiPtr) 0 / foamNewNil()");
   ("BIntShiftUp", "interpreter narrows the count to int first; otherwise the same bintShift call"); ("BIntShiftDn", "as BIntShiftUp");
-  ("BIntBit", "index converted to Length in the wrapper; same bintBit call");
-  ("PtrIsNil", "pointer comparison written with and without a cast of 0");
   ("ScanSFlo", "two results through pointers"); ("ScanDFlo", "two results through pointers");
   ("ScanSInt", "two results through pointers"); ("ScanBInt", "two results through pointers");
-  ("ArrToSFlo", "atof on the literal text (C19)"); ("ArrToDFlo", "atof on the literal text (C19)");
   ("PlatformRTE", "constant naming the run-time system: differs by design"); ("Halt", "does not return");
   ("StoForceGC", "store manager (C09/C10)"); ("StoInHeap", "store manager"); ("StoIsWritable", "store manager");
   ("StoMarkObject", "store manager"); ("StoRecode", "store manager"); ("StoNewObject", "store manager");
-  ("StoATracer", "store manager"); ("StoCTracer", "store manager"); ("StoShow", "store manager"); ("StoShowArgs", "store manager");
-  ("TypeInt8", "raw-record type tag constant"); ("TypeInt16", "type tag"); ("TypeInt32", "type tag"); ("TypeInt64", "type tag");
-  ("TypeInt128", "type tag"); ("TypeNil", "type tag"); ("TypeChar", "type tag"); ("TypeBool", "type tag"); ("TypeByte", "type tag");
-  ("TypeHInt", "type tag"); ("TypeSInt", "type tag"); ("TypeBInt", "type tag"); ("TypeSFlo", "type tag"); ("TypeDFlo", "type tag");
-  ("TypeWord", "type tag"); ("TypeClos", "type tag"); ("TypePtr", "type tag"); ("TypeRec", "type tag"); ("TypeArr", "type tag");
-  ("TypeTR", "type tag"); ("RawRepSize", "raw-record layout");
-  ("SizeOfInt8", "sizeof constant of the platform"); ("SizeOfInt16", "sizeof"); ("SizeOfInt32", "sizeof"); ("SizeOfInt64", "sizeof");
-  ("SizeOfInt128", "sizeof"); ("SizeOfNil", "sizeof"); ("SizeOfChar", "sizeof"); ("SizeOfBool", "sizeof"); ("SizeOfByte", "sizeof");
+  ("StoATracer", "store manager"); ("StoCTracer", "store manager"); ("StoShow", "store manager"); ("StoShowArgs", "store manager"); ("RawRepSize", "raw-record layout"); ("SizeOfNil", "sizeof"); ("SizeOfChar", "sizeof"); ("SizeOfBool", "sizeof"); ("SizeOfByte", "sizeof");
   ("SizeOfHInt", "sizeof"); ("SizeOfSInt", "sizeof"); ("SizeOfBInt", "sizeof"); ("SizeOfSFlo", "sizeof"); ("SizeOfDFlo", "sizeof");
   ("SizeOfWord", "sizeof"); ("SizeOfClos", "sizeof"); ("SizeOfPtr", "sizeof"); ("SizeOfRec", "sizeof"); ("SizeOfArr", "sizeof");
   ("SizeOfTR", "sizeof");
